@@ -39,16 +39,6 @@ partial def tripleDup : RVal → Bool
   | _ => false
 end
 
-/-- `hexlit:bits64|x:bits32|x,...` -/
-def parseFlt (s : String) : List (Bytes × Option UInt64 × Option UInt32) :=
-  if s == "-" then [] else
-  (s.splitOn ",").filterMap fun e =>
-    match e.splitOn ":" with
-    | [l, a, b] =>
-      (unhexArg l).map fun lit =>
-        (lit, (if a == "x" then none else (hexNat a).map (·.toUInt64)), (if b == "x" then none else (hexNat b).map (·.toUInt32)))
-    | _ => none
-
 mutual
 /-- the type has a struct none of whose fields is visible to JSON (sonic's `_OP_skip_emtpy` path) -/
 partial def hasEmptyStruct : GoType → Bool
@@ -58,12 +48,36 @@ partial def hasEmptyStruct : GoType → Bool
   | _ => false
 end
 
-def run (cfg tstr h : String) (flt : String) : Option String := do
+/-- a literal on which rounding to float64 first and then to float32 differs from rounding once
+    (value one ulp off, or overflow on one side only): C19-f32-double-rounding -/
+def f32DoubleRounds (l : Bytes) : Bool :=
+  match Num.toF32Bits l, Num.f32ViaF64 l with
+  | .ok a, .ok b => a.toNat != b
+  | .ok _, .error _ => true
+  | .error .range, .ok _ => true
+  | _, _ => false
+
+mutual
+/-- number texts of a document: literals, and string contents (`,string` fields) -/
+partial def numTexts : RVal → List Bytes
+  | .num l => [l]
+  | .str _ u => [u]
+  | .arr _ xs => xs.flatMap numTexts
+  | .obj _ kvs => kvs.flatMap fun p => numTexts p.2
+  | _ => []
+end
+
+def run (cfg tstr h : String) : Option String := do
     let bits ← cfg.toNat?
     let doc ← unhexArg h
-    if hasSub tstr "(lib" then return s!"model=unsupported\twhy=lib\tstruct={if Stream.structuralDoc false doc then 1 else 0}"
+    let numFlags : String := match parseRDoc doc with
+      | some j =>
+        let ts := numTexts j
+        s!"\tf32dr={if ts.any f32DoubleRounds then 1 else 0}\tnegz={if ts.any (· == [45, 48]) then 1 else 0}"
+      | none => ""
+    if hasSub tstr "(lib" then return s!"model=unsupported\twhy=lib\tstruct={if Stream.structuralDoc false doc then 1 else 0}{numFlags}"
     let T ← parseType tstr
-    let o := { optsOf bits with flt := parseFlt flt }
+    let o := optsOf bits
     if o.useNumber && o.useInt64 then return "model=unsupported\twhy=opts"
     -- the single-pass model (jitdec architecture) with the structural skipper: the judge of the documented
     -- leniency (skipped values are checked for structure only, whatever the configuration)
@@ -74,6 +88,7 @@ def run (cfg tstr h : String) (flt : String) : Option String := do
       | .ok (_, some .outside) => "stream=unsupported"
       | .ok (v, some e) => s!"stream={e.toString}\tsval={valToString v}"
     let st := st ++ s!"\tstruct={if Stream.structuralDoc false doc then 1 else 0}\temptyst={if hasEmptyStruct T then 1 else 0}"
+    let st := st ++ numFlags
     match parseRDoc doc with
     | none => return s!"model=syntax\tval={valToString (zeroOf T)}\t{st}"
     | some j =>
@@ -85,9 +100,9 @@ def run (cfg tstr h : String) (flt : String) : Option String := do
       | some err => return s!"model={err.toString}\tval={valToString v}\t{st}"
 
 def handle : List String → Option String
-  | ["unm", cfg, tstr, h] => run cfg tstr h "-"
-  | ["bind", cfg, tstr, h, _tags] => run cfg tstr h "-"
-  | ["bind", cfg, tstr, h, _tags, flt] => run cfg tstr h flt
+  | ["unm", cfg, tstr, h] => run cfg tstr h
+  | ["bind", cfg, tstr, h, _tags] => run cfg tstr h
+  | ["bind", cfg, tstr, h, _tags, _] => run cfg tstr h
   | _ => none
 
 end SonicSpec.Driver.Bind
